@@ -429,6 +429,9 @@ class MinErrorFlow():
                 else:
                     utils.logger.warning(f"{__name__}: model not solved, status = {self.solver.get_model_status()}")
                 
+        # A solve that did not end optimally leaves no solution behind (the few-flow-values pass caches the solution of
+        # its first solve while preparing the second one)
+        self._solution = None
         self._is_solved = False
         return False
 
